@@ -91,8 +91,14 @@ func (r *c08Reader) Read(p []byte) (int, error) {
 }
 
 // c08Classifier: a handful of embedded documents (fast Match, real texts).
+// c08Trace (job parameter trace=all): every phase of every license traced to a no-op tracer.
+var c08Trace bool
+
 func c08Classifier() (*Classifier, []vDoc) {
 	cl := NewClassifier(0.8)
+	if c08Trace {
+		cl.SetTraceConfiguration(&TraceConfiguration{TraceLicenses: "*", TracePhases: "*", Tracer: func(string, ...interface{}) {}})
+	}
 	var docs []vDoc
 	for _, d := range c01PoolDocs() {
 		if len(d.Bytes) < 12000 {
@@ -167,6 +173,7 @@ func c08PadExtras(docs []vDoc) [][]byte {
 }
 
 func c08Chunks(c *vrep.Ctx) {
+	c08Trace = c.Param("trace", "off") == "all"
 	cl, docs := c08Classifier()
 	inputs := c08Inputs(docs, c.ParamInt("inputs", c.Pick(3, 10)))
 	chunks := []int{0, 1, 2, 3, 4, 5, 6, 7, 8, 9, 1019, 1020, 1021, 1022, 1023, 1024, 1025, 4096}
@@ -219,6 +226,7 @@ func c08Chunks(c *vrep.Ctx) {
 }
 
 func c08Pads(c *vrep.Ctx) {
+	c08Trace = c.Param("trace", "off") == "all"
 	cl, docs := c08Classifier()
 	inputs := c08Inputs(docs, c.Pick(3, 10))
 	nfull := len(inputs) + 2 // the ordinary inputs and the two truncated ones get every pad width
@@ -267,6 +275,7 @@ func c08Pads(c *vrep.Ctx) {
 }
 
 func c08Faults(c *vrep.Ctx) {
+	c08Trace = c.Param("trace", "off") == "all"
 	cl, docs := c08Classifier()
 	all := c08Inputs(docs, c.Pick(2, 6))
 	var inputs [][]byte
